@@ -1,50 +1,50 @@
-import KitModel.Coalescing
+import KitProofs.Lemmas.CoalescingBridge
 /-! Helper lemmas for property C09 (coalescing rate limiter). -/
 namespace Kit.Coalescing
 
 /-! ### unfolding helpers -/
 
-theorem fire_pending (s : State) : (fire s).pending = 0 := by
-  unfold fire; split <;> simp_all <;> omega
+theorem fire_pending (cfg : Config) (s : State) : (fire cfg s).pending = 0 := by
+  rw [fire_def]; split <;> simp_all <;> omega
 
-theorem fire_fires (s : State) : (fire s).fires = s.fires + (if 0 < s.pending then 1 else 0) := by
-  unfold fire; split <;> simp_all
+theorem fire_fires (cfg : Config) (s : State) : (fire cfg s).fires = s.fires + (if 0 < s.pending then 1 else 0) := by
+  rw [fire_def]; split <;> simp_all
 
-theorem fire_senders (s : State) : (fire s).senders = s.senders + (if 0 < s.pending then 1 else 0) := by
-  unfold fire; split <;> simp_all
+theorem fire_senders (cfg : Config) (s : State) : (fire cfg s).senders = s.senders + (if 0 < s.pending then 1 else 0) := by
+  rw [fire_def]; split <;> simp_all
 
 /-- Everything `fire` does not touch. -/
-theorem fire_frame (s : State) :
-    (fire s).tokens = s.tokens ∧ (fire s).timer = s.timer ∧ (fire s).cur = s.cur ∧
-    (fire s).factor = s.factor ∧ (fire s).ovf = s.ovf ∧ (fire s).consumed = s.consumed ∧
-    (fire s).dropped = s.dropped ∧ (fire s).adds = s.adds ∧ (fire s).now = s.now ∧
-    (fire s).closed = s.closed ∧ (fire s).cancelled = s.cancelled ∧ (fire s).runCalled = s.runCalled ∧
-    (fire s).loop = s.loop ∧ (fire s).closeWaiting = s.closeWaiting ∧
-    (fire s).closeReturned = s.closeReturned ∧ (fire s).runReturned = s.runReturned ∧
-    (fire s).wk = s.wk ∧ (fire s).armedAt = s.armedAt := by
-  unfold fire; split <;> simp
+theorem fire_frame (cfg : Config) (s : State) :
+    (fire cfg s).tokens = s.tokens ∧ (fire cfg s).timer = s.timer ∧ (fire cfg s).cur = s.cur ∧
+    (fire cfg s).factor = s.factor ∧ (fire cfg s).ovf = s.ovf ∧ (fire cfg s).consumed = s.consumed ∧
+    (fire cfg s).dropped = s.dropped ∧ (fire cfg s).adds = s.adds ∧ (fire cfg s).now = s.now ∧
+    (fire cfg s).closed = s.closed ∧ (fire cfg s).cancelled = s.cancelled ∧ (fire cfg s).runCalled = s.runCalled ∧
+    (fire cfg s).loop = s.loop ∧ (fire cfg s).closeWaiting = s.closeWaiting ∧
+    (fire cfg s).closeReturned = s.closeReturned ∧ (fire cfg s).runReturned = s.runReturned ∧
+    (fire cfg s).wk = s.wk ∧ (fire cfg s).armedAt = s.armedAt := by
+  rw [fire_def]; split <;> simp
 
-@[simp] theorem fire_tokens (s : State) : (fire s).tokens = s.tokens := (fire_frame s).1
-@[simp] theorem fire_timer (s : State) : (fire s).timer = s.timer := (fire_frame s).2.1
-@[simp] theorem fire_cur (s : State) : (fire s).cur = s.cur := (fire_frame s).2.2.1
-@[simp] theorem fire_factor (s : State) : (fire s).factor = s.factor := (fire_frame s).2.2.2.1
-@[simp] theorem fire_ovf (s : State) : (fire s).ovf = s.ovf := (fire_frame s).2.2.2.2.1
-@[simp] theorem fire_adds (s : State) : (fire s).adds = s.adds := (fire_frame s).2.2.2.2.2.2.2.1
-@[simp] theorem fire_now (s : State) : (fire s).now = s.now := (fire_frame s).2.2.2.2.2.2.2.2.1
-@[simp] theorem fire_closed (s : State) : (fire s).closed = s.closed := (fire_frame s).2.2.2.2.2.2.2.2.2.1
-@[simp] theorem fire_loop (s : State) : (fire s).loop = s.loop := (fire_frame s).2.2.2.2.2.2.2.2.2.2.2.2.1
-@[simp] theorem fire_wk (s : State) : (fire s).wk = s.wk := (fire_frame s).2.2.2.2.2.2.2.2.2.2.2.2.2.2.2.2.1
-@[simp] theorem fire_armedAt (s : State) : (fire s).armedAt = s.armedAt := (fire_frame s).2.2.2.2.2.2.2.2.2.2.2.2.2.2.2.2.2
+@[simp] theorem fire_tokens (cfg : Config) (s : State) : (fire cfg s).tokens = s.tokens := (fire_frame cfg s).1
+@[simp] theorem fire_timer (cfg : Config) (s : State) : (fire cfg s).timer = s.timer := (fire_frame cfg s).2.1
+@[simp] theorem fire_cur (cfg : Config) (s : State) : (fire cfg s).cur = s.cur := (fire_frame cfg s).2.2.1
+@[simp] theorem fire_factor (cfg : Config) (s : State) : (fire cfg s).factor = s.factor := (fire_frame cfg s).2.2.2.1
+@[simp] theorem fire_ovf (cfg : Config) (s : State) : (fire cfg s).ovf = s.ovf := (fire_frame cfg s).2.2.2.2.1
+@[simp] theorem fire_adds (cfg : Config) (s : State) : (fire cfg s).adds = s.adds := (fire_frame cfg s).2.2.2.2.2.2.2.1
+@[simp] theorem fire_now (cfg : Config) (s : State) : (fire cfg s).now = s.now := (fire_frame cfg s).2.2.2.2.2.2.2.2.1
+@[simp] theorem fire_closed (cfg : Config) (s : State) : (fire cfg s).closed = s.closed := (fire_frame cfg s).2.2.2.2.2.2.2.2.2.1
+@[simp] theorem fire_loop (cfg : Config) (s : State) : (fire cfg s).loop = s.loop := (fire_frame cfg s).2.2.2.2.2.2.2.2.2.2.2.2.1
+@[simp] theorem fire_wk (cfg : Config) (s : State) : (fire cfg s).wk = s.wk := (fire_frame cfg s).2.2.2.2.2.2.2.2.2.2.2.2.2.2.2.2.1
+@[simp] theorem fire_armedAt (cfg : Config) (s : State) : (fire cfg s).armedAt = s.armedAt := (fire_frame cfg s).2.2.2.2.2.2.2.2.2.2.2.2.2.2.2.2.2
 
 theorem handleInput_none {cfg : Config} {s : State} (htm : s.timer = none) :
     handleInput cfg s =
-      fire { s with tokens := s.tokens - 1, loop := Loop.top, timer := some (s.now + cfg.initial), armedAt := s.now, wk := 0 } := by
-  simp [handleInput, htm]
+      fire cfg { s with tokens := s.tokens - 1, loop := Loop.top, timer := some (s.now + cfg.initial), armedAt := s.now, wk := 0 } := by
+  simp [handleInput, htm, newTimerArg_def]
 
 theorem handleInput_cap {cfg : Config} {s : State} {d0 : Nat} (htm : s.timer = some d0)
     (hcap : capReached cfg s = true) :
-    handleInput cfg s = fire { s with tokens := s.tokens - 1, loop := Loop.top } := by
-  simp [handleInput, htm, hcap]
+    handleInput cfg s = fire cfg { s with tokens := s.tokens - 1, loop := Loop.top } := by
+  simp [handleInput, htm, hcap, resetTimerArg_def]
 
 theorem handleInput_ext {cfg : Config} {s : State} {d0 : Nat} (htm : s.timer = some d0)
     (hcap : capReached cfg s = false) :
@@ -55,7 +55,7 @@ theorem handleInput_ext {cfg : Config} {s : State} {d0 : Nat} (htm : s.timer = s
                ovf := s.ovf || (backoffVals cfg s.cur s.factor).2.2,
                timer := some (s.now + (backoffVals cfg s.cur s.factor).1),
                armedAt := s.now, wk := s.wk + 1 } := by
-  simp [handleInput, htm, hcap]
+  simp [handleInput, htm, hcap, resetTimerArg_def]
 
 end Kit.Coalescing
 
@@ -74,13 +74,13 @@ structure Inv (cfg : Config) (s : State) : Prop where
   off : s.loop = .off → s.senders = 0
 
 theorem inv_init (cfg : Config) (hv : cfg.valid) : Inv cfg (init cfg) := by
-  constructor <;> simp [init]
+  constructor <;> simp [init_def]
   intro m hm
   exact hv.2.2 m hm
 
 theorem capReached_iff (cfg : Config) (s : State) :
     capReached cfg s = true ↔ ∃ m, cfg.cap = some m ∧ m ≤ s.pending := by
-  unfold capReached
+  rw [capReached_def]
   cases cfg.cap <;> simp
 
 theorem inv_handleInput {cfg : Config} (hv : cfg.valid) {s : State} (hi : Inv cfg s)
@@ -91,17 +91,17 @@ theorem inv_handleInput {cfg : Config} (hv : cfg.valid) {s : State} (hi : Inv cf
     rcases Nat.eq_zero_or_pos s.closeReturned with h | h
     · exact h
     · have := (clret h).2.2; simp [hrun] at this
-  unfold handleInput
   cases htm : s.timer with
   | none =>
     have hid := idle htm
+    rw [handleInput_none htm]
     by_cases hp : 0 < s.pending
-    · simp only [fire, hp, if_true]
+    · simp only [fire_def, hp, if_true]
       constructor <;> simp_all [State.running]
       · omega
       · omega
       · intro m hm; have := hv.2.2 m hm; omega
-    · simp only [fire, hp, if_false]
+    · simp only [fire_def, hp, if_false]
       constructor <;> simp_all [State.running]
       · intro m hm; have := hv.2.2 m hm; omega
   | some d0 =>
@@ -111,13 +111,14 @@ theorem inv_handleInput {cfg : Config} (hv : cfg.valid) {s : State} (hi : Inv cf
       obtain ⟨m, hm, hmp⟩ := (capReached_iff cfg s).1 hcap
       have hm0 := hv.2.2 m hm
       have hp : 0 < s.pending := by omega
-      simp only [fire, hp, if_true]
+      rw [handleInput_cap htm hcap]
+      simp only [fire_def, hp, if_true]
       constructor <;> simp_all [State.running]
       · omega
       · omega
       · right; omega
     | false =>
-      simp only [Bool.false_eq_true, if_false]
+      rw [handleInput_ext htm hcap]
       constructor <;> simp_all [State.running]
       · intro m hm
         have hnc : ¬ m ≤ s.pending := by
@@ -135,12 +136,12 @@ theorem inv_handleTimer {cfg : Config} (hv : cfg.valid) {s : State} (hi : Inv cf
     rcases Nat.eq_zero_or_pos s.closeReturned with h | h
     · exact h
     · have := (clret h).2.2; simp [hrun] at this
-  unfold handleTimer
+  rw [handleTimer_def]
   by_cases hp : 0 < s.pending
-  · simp only [fire, hp, if_true]
+  · simp only [fire_def, hp, if_true]
     cfin
     intro m hm; have := hv.2.2 m hm; right; omega
-  · simp only [fire, hp, if_false]
+  · simp only [fire_def, hp, if_false]
     cfin
     try (intro m hm; have := hv.2.2 m hm; right; omega)
 
@@ -176,7 +177,7 @@ theorem inv_step {cfg : Config} (hv : cfg.valid) {s s' : State} (l : Label)
     · cases hst
   | add =>
     obtain ⟨sig, acct, lost, idle, armed, capi, cl, clret, off⟩ := hi
-    simp only [step] at hst
+    rw [step_add_def] at hst
     split at hst
     · cases hst; constructor <;> assumption
     · next hc =>
